@@ -76,3 +76,15 @@ Theorem C09_certified_support_judge_sound : forall rec m n M rc1 v viol rc2 was 
              (v = 1 \/ v = 0) /\ (v = 1 <-> CamionCertModel.is_scaling_of m n N M = true) /\ (v = 1 -> tu_bf m n M = true).
 Proof. exact CamionCertProofs.judge_camion_cert_sound. Qed.
 Print Assumptions C09_certified_support_judge_sound.
+
+(* ---------- Camion's uniqueness theorem (CamionUnique.v): two totally unimodular matrices with the same support differ by
+   multiplying rows and columns by -1 ---------- *)
+From Cmr Require CamionModel CamionUnique.
+Theorem C09_TU_signing_is_unique_up_to_scaling : forall m n (M N : mat),
+  wf_mat m n M = true -> wf_mat m n N = true ->
+  tu_bf m n M = true -> tu_bf m n N = true -> CamionModel.same_support M N = true ->
+  exists rs cs : list Z, length rs = m /\ length cs = n /\
+    forallb RelModel.is_pm1' rs = true /\ forallb RelModel.is_pm1' cs = true /\
+    forall i j, (i < m)%nat -> (j < n)%nat -> get N i j = (nthZ rs i * nthZ cs j * get M i j)%Z.
+Proof. exact CamionUnique.tu_signing_unique_std. Qed.
+Print Assumptions C09_TU_signing_is_unique_up_to_scaling.
